@@ -105,23 +105,32 @@ def run(rep, tier):
             wk = ops.wrapper_kind(f)
             for p in ps:
                 acc = [e for e in p.events if e.kind == "CALL" and q.short(e.a) in ("operator[]", "at") and e.c == ("addr", ("fld", ops.THIS_OBJ, "data"))]
-                if not acc:
+                rv_ = p.retval[1][1] if isinstance(p.retval, tuple) and p.retval[:1] == ("deref",) and isinstance(p.retval[1], tuple) and p.retval[1][:1] == ("addr",) else p.retval
+                dat = [e for e in p.events if e.kind == "CALL" and q.short(e.a) in ("data", "begin", "cbegin") and e.c == ("addr", ("fld", ops.THIS_OBJ, "data"))]
+                if not acc and len(dat) == 1 and isinstance(rv_, tuple) and rv_[:2] == ("idx", ("fld", ops.THIS_OBJ, "data")):
+                    # equivalent idiom: storage.data() + index, i.e. element `index` of the wrapper's own std::array
+                    if not ops.is_value_of(ops.strip_casts(rv_[2]), rhs, allow_cast=True):
+                        rep.violation("R-C17-element", site(f) + " [array]", "the element is selected with %s, which is not the checked index value" % fmt(rv_[2]), f["loc"], inst)
+                        break
+                    a = dat[0]
+                elif not acc:
                     # equivalent idiom: element located by byte offset from the wrapper's own address: this + index*sizeof(element)
                     why = offset_idiom_ok(db, p, rhs, T, wk)
                     if why is None:
                         continue
                     rep.violation("R-C17-element", site(f) + " [array]", why, f["loc"], inst)
                     break
-                if len(acc) != 1:
+                elif len(acc) != 1:
                     rep.violation("R-C17-element", site(f) + " [array]", "the wrapper's own storage is not indexed exactly once", f["loc"], inst)
                     break
-                a = acc[0]
-                if not ops.is_value_of(a.b[0], rhs, allow_cast=False):
-                    rep.violation("R-C17-element", site(f) + " [array]", "the element is selected with %s, which is not the checked index value" % fmt(a.b[0]), f["loc"], inst)
-                    break
-                if p.retval != ("deref", ("addr", (a.extra or {}).get("ret"))) and p.retval != (a.extra or {}).get("ret"):
-                    rep.violation("R-C17-element", site(f) + " [array]", "the reference returned (%s) is not the selected element" % fmt(p.retval), f["loc"], inst)
-                    break
+                else:
+                    a = acc[0]
+                    if not ops.is_value_of(a.b[0], rhs, allow_cast=False):
+                        rep.violation("R-C17-element", site(f) + " [array]", "the element is selected with %s, which is not the checked index value" % fmt(a.b[0]), f["loc"], inst)
+                        break
+                    if p.retval != ("deref", ("addr", (a.extra or {}).get("ret"))) and p.retval != (a.extra or {}).get("ret"):
+                        rep.violation("R-C17-element", site(f) + " [array]", "the reference returned (%s) is not the selected element" % fmt(p.retval), f["loc"], inst)
+                        break
                 m = re.match(r"^std::array<(.*), (\d+)>::", a.a)
                 if not m or int(m.group(2)) != N:
                     rep.violation("R-C17-element", site(f) + " [array]", "storage is %s, expected %d elements" % (a.a, N), f["loc"], inst)
